@@ -104,14 +104,28 @@ class VFile:
         # (stdpp is deliberately not imported here: its notations and hints make coqc elaborate these files 40% slower)
         hdr = ("From Coq Require Import Uint63.\nFrom Drummer.Model Require Import Base DB Launch LaunchRun.\n"
                "Local Open Scope uint63_scope.\n")
-        # the list of cases in chunks: coqc overflows its stack on a list literal of some 25000 entries
+        # the cases in chunks, each evaluated on its own: coqc overflows its stack on a list of some 25000 entries
         ts = [t for (t, _) in self.items]
-        chunks = [ts[i:i + 1500] for i in range(0, len(ts), 1500)] or [[]]
-        return (hdr + "".join("Definition %s := %s.\n" % (n, t) for (n, t) in self.order) +
-                "".join("Definition chunk%d : list N := [\n%s\n].\n" % (i, ";\n".join(ch)) for i, ch in enumerate(chunks)) +
-                "Definition codes : list N := " + " ++ ".join("chunk%d" % i for i in range(len(chunks))) + ".\n"
-                "Definition R := Eval vm_compute in codes.\n"
-                "Definition M1 := Eval vm_compute in codes_with 1 R.\nDefinition M2 := Eval vm_compute in codes_with 2 R.\nPrint M1.\nPrint M2.\n")
+        self.nchunks = max(1, (len(ts) + self.CHUNK - 1) // self.CHUNK)
+        out = [hdr] + ["Definition %s := %s.\n" % (n, t) for (n, t) in self.order]
+        for i in range(self.nchunks):
+            out.append("Definition chunk%d : list N := [\n%s\n].\n" % (i, ";\n".join(ts[i * self.CHUNK:(i + 1) * self.CHUNK])))
+            out.append("Definition R%d := Eval vm_compute in chunk%d.\nDefinition MA%d := Eval vm_compute in codes_with 1 R%d.\n"
+                       "Definition MB%d := Eval vm_compute in codes_with 2 R%d.\nPrint MA%d.\nPrint MB%d.\n" % ((i,) * 8))
+        return "".join(out)
+
+    CHUNK = 1500
+
+    def parse(self, out):
+        """-> (indexes of items with code 1, with code 2) or None"""
+        m1, m2 = [], []
+        for i in range(self.nchunks):
+            a, b = parse_coq_list_of_nat(out, "MA%d" % i), parse_coq_list_of_nat(out, "MB%d" % i)
+            if a is None or b is None:
+                return None
+            m1 += [i * self.CHUNK + j for j in a]
+            m2 += [i * self.CHUNK + j for j in b]
+        return m1, m2
 
 
 def coq_req(vf, q):
@@ -709,8 +723,8 @@ def run(ck):
     tm["model_eval"] = round(time.time() - t0, 1)
     inexact, mism = [], []
     for si, (rc, out) in enumerate(outs):
-        m1 = parse_coq_list_of_nat(out, "M1") if rc == 0 else None
-        m2 = parse_coq_list_of_nat(out, "M2") if rc == 0 else None
+        pr = vfs[si].parse(out) if rc == 0 else None
+        (m1, m2) = pr if pr is not None else (None, None)
         if m1 is None or m2 is None:
             ck.violation("model evaluation failed (coqc)", {"kind": "coq-eval", "rc": rc, "out_tail": out[-3000:]}, found_input=False)
             return
